@@ -50,11 +50,14 @@
 (*       "mixed"     images 1 and 2 share a name in two directories, the   *)
 (*                   others have names of their own                        *)
 (*       "blanks"    distinct names with blanks / non-ASCII characters     *)
-(*    form = index into Forms, [addr, cwd, pub]: image paths given          *)
+(*    form = index into Forms, [addr, cwd, pub, spell]: image paths given   *)
 (*       relative / absolute / "./x" / mixed within one list; the working  *)
 (*       directory is the images' directory or another one; the public     *)
 (*       key (-p) or authorization (-o) path relative, absolute, or in     *)
-(*       another directory.  Every other invocation of a session uses      *)
+(*       another directory; spell = how the paths are written (plain, or   *)
+(*       not in normal form: `d/..`, `link/..` with or without another     *)
+(*       image where the spelling collapses to, through links, `//`, `/./`)*)
+(*       Every other invocation of a session uses      *)
 (*       AltForm[form] (so the same files are also named the other way).   *)
 (*    Setups / AuthSetups are covering sets (every pair of values occurs). *)
 (*    Sys identifies an image by its path: NameOf is only used by the      *)
@@ -83,7 +86,7 @@ CONSTANTS Images,      \* set of images; an image is a set of areas [z, o, d]
           Forms,       \* sequence of [addr, cwd, pub]
           AltForm,     \* form index -> the form of every other invocation
           UnitLens,    \* size class -> sequence: unit id -> real length in bytes
-          Variant      \* "ok" | "reuse" | "leak" | "signpath" | "twopubs" | "fileorder" | "stale" | "tailtwice" | "byname" | "readcap"
+          Variant      \* "ok" | "reuse" | "leak" | "signpath" | "twopubs" | "fileorder" | "stale" | "tailtwice" | "byname" | "readcap" | "normpath"
 
 VARIABLES mode,
           size,        \* the size class Env picked ("none": not yet)
@@ -261,6 +264,11 @@ LastNamed(n) == LET ks == {k \in DOMAIN cur.imgs : NameOf(cur.imgs[k]) = n}
                 IN  cur.imgs[CHOOSE k \in ks : \A j \in ks : j <= k]
 SignI == /\ mode = "sign" /\ pc = "sign"
          /\ sig' = [by |-> sk, over |-> IF Variant = "signpath" THEN 0
+                                       \* "normpath": the path is tidied lexically first; `link/..` then
+                                       \* names the other image lying where the spelling collapses to
+                                       ELSE IF Variant = "normpath"
+                                               /\ Forms[FormOf(run)].spell = "dotdot-link-decoy"
+                                       THEN 99
                                        ELSE IF Variant = "byname"
                                        THEN Contents[LastNamed(NameOf(cur.imgs[idx]))]
                                        ELSE h]
